@@ -21,6 +21,19 @@ Reference ledger (everything below is arithmetic on ints / floats / lists, no pa
     is a whole number of cents and within half a cent of the true value - no dependence on tie-breaking);
   * a refused request (documented type) leaves master cash, every portfolio's cash, positions, pending queues, histories
     bit-for-bit as before.
+
+Attribution (each clause fails only when ITS statement is violated):
+  * WHICH fills happen - pending-until-first-open-update, filled-once-in-full, sells-before-buys-then-submission-order,
+    fill-on-own-portfolio - is judged on the OBSERVED fill log (instance-level wrap of transact_asset: portfolio, asset, quantity,
+    order id, order of occurrence) matched against the pending orders (by order id);
+  * each OBSERVED fill is judged from its own fields: price = ask/bid(update time) by the sign of the observed quantity, stamp =
+    update time, commission = fee model on round(observed price * observed quantity);
+  * the ACCOUNTING clauses (cash-ledger, history-events-rounded-once, holdings-are-net-fills, valued-at-latest-price) book the
+    fills that actually happened (observed portfolio / quantity / price / commission), so e.g. a partial fill whose cash debit is
+    consistent with the quantity filled fails filled-once-in-full only; account-totals-are-sums compares the account dictionaries
+    with the per-portfolio figures the broker reports at that moment (and their sum); equity = the portfolio's actual cash + the
+    ledger's market value;
+  * after a step with a failed check the ledger is resynchronised to the broker's actual state and the sequence continues.
 """
 import collections
 import datetime
@@ -43,7 +56,7 @@ BOUND = (
     "subscribe/withdraw portfolio funds (valid amounts incl. exactly the balance and non-cent amounts; invalid: negative, exceeding the "
     "balance by 0.01 / 0.004 / 1e-6 / one ulp, unknown portfolio), create_portfolio (new / duplicate id), submit_order (known / unknown / "
     "not-yet-created portfolio; non-zero integer quantities of either sign incl. exact closes, flips through zero, re-opens; in 15%% of "
-    "sequences explicit order ids drawn from a pool of 3), broker.update at NON-DECREASING microsecond times (same instant, +1us..+1h, exact "
+    "sequences explicit order ids from a pool of 3, reused over time but never by two orders pending together), broker.update at NON-DECREASING microsecond times (same instant, +1us..+1h, exact "
     "14:30:00 / 21:00:00 boundaries and +-1us / +-1s around them, hour and day jumps, weekends inside trading hours), and read-only "
     "queries (every account / portfolio getter, unknown portfolio, unsupported currency) issued twice in a row, before and after "
     "mutating operations without an intervening update.  Quotes come from a table-driven data handler: bid < mid < ask, all > 0, "
@@ -722,7 +735,11 @@ def _run_sequence(seed, index, acc, want_render=12):
             qty = qty if qty is not None else pick_qty(pid, asset, mode)
         tokens[0] += 1
         tok = tokens[0]
-        oid = 'oid-%d' % rng.randint(1, 3) if dup_ids else None
+        oid = None
+        if dup_ids:     # explicit ids from a pool of 3, reused over time but never by two orders pending at the same moment
+            busy = set(order_objs[tk].order_id for pl in L.pending.values() for tk, _, _ in pl)
+            free = [x for x in ('oid-1', 'oid-2', 'oid-3') if x not in busy]
+            oid = rng.choice(free) if free else None
         o = Order(broker.current_dt, asset, qty, order_id=oid)
         order_objs[tok] = o
         ops.append(['submit_order', pid, asset, qty, oid, 'refuse' if invalid else 'ok'])
